@@ -260,7 +260,7 @@ PROPERTIES = {
                  overlay={"internal/httpgen/zz_verif_c12_common.go": "harness/c12/c12_common.go", "internal/httpgen/zz_verif_c14.go": "harness/c14/c14_codecs.go",
                           "internal/httpgen/zz_verif_c20.go": "harness/c20/c20_mock_g.go", "internal/httpgen/zz_verif_c20w.go": "harness/c20/c20_world.go",
                           "internal/httpgen/zz_verif_c20t.go": "harness/c20/c20_mock_tree.go"},
-                 harnesses=[dict(func="VerifC20MockTyping", reach=["C20/typing/decided", "C20/typing/kf-cardinality", "C20/typing/width"], quick=dict(budget=200), thorough=dict(budget=600)),
+                 harnesses=[dict(func="VerifC20MockTyping", reach=["C20/typing/decided", "C20/typing/cardinality", "C20/typing/width"], quick=dict(budget=200), thorough=dict(budget=600)),
                             dict(func="VerifC20MockMapTypes", reach=["C20/map/decided"], quick=dict(budget=100), thorough=dict(budget=300)),
                             dict(func="VerifC20MockTree", reach=["C20/tree/decided"], quick=dict(budget=100), thorough=dict(budget=300))]),
             dict(mode="E", replay_repeat=10,  # the native mock draws its example with the real math/rand
